@@ -28,7 +28,12 @@ fn product<T: W>(a: &M, b: &M) -> (M, Vec<f64>) {
     (m, tol)
 }
 
-pub fn run<T: W>(r1: usize, c1: usize, shapes_b: &[(usize, usize)], seed: u64) {
+/// `wide`: long family (round 2) — the operands carry the wide index codes (injective for long rows).
+pub fn run<T: W>(r1: usize, c1: usize, shapes_b: &[(usize, usize)], seed: u64, wide: bool) {
+    type Code = fn(usize, usize, usize, u64) -> M;
+    let coded: Code = if wide { coded_w } else { coded };
+    let coded2: Code = if wide { coded2_w } else { coded2 };
+    let long = |n: usize| wide && n >= crate::LONG_MIN;
     let (r2, c2) = shapes_b[mc::choose(shapes_b.len())];
     let fa = mc::choose(4);
     let same_size = r1 * c1 == r2 * c2 && (r1, c1) != (r2, c2);
@@ -92,6 +97,9 @@ pub fn run<T: W>(r1: usize, c1: usize, shapes_b: &[(usize, usize)], seed: u64) {
                     Cx { op: &om, class: cls, what: &what }.fail(":operand-modified", "the right-hand operand was changed".into());
                 }
                 mc::count("binary_compatible");
+                if long(r1.max(c1)) {
+                    mc::count("long_binary_elementwise");
+                }
             } else {
                 let g = mc::guard(|| match op {
                     "add" => da.add(&db),
@@ -129,6 +137,11 @@ pub fn run<T: W>(r1: usize, c1: usize, shapes_b: &[(usize, usize)], seed: u64) {
                 if ea.r != ea.c || eb.r != eb.c {
                     mc::count("product_nonsquare");
                 }
+                if long(ea.c) {
+                    mc::count("long_product_inner");
+                } else if long(ea.r.max(eb.c)) {
+                    mc::count("long_product_outer");
+                }
             } else {
                 expect_panic(&Cx { op: &name, class: "incompatible-accepted", what: &what }, got, show_m);
             }
@@ -142,6 +155,9 @@ pub fn run<T: W>(r1: usize, c1: usize, shapes_b: &[(usize, usize)], seed: u64) {
                 if same_shape || a.v.len() == 1 {
                     expect_s::<T>(&Cx { op: "dense.dot", class: &pair, what: &what }, got, want, tol);
                     mc::count("dot_vectors");
+                    if long(a.v.len()) {
+                        mc::count("long_dot");
+                    }
                 } else {
                     // a row against a column of the same length: rejecting and the inner product
                     // are both acceptable readings; a returned value must be the inner product
@@ -161,6 +177,9 @@ pub fn run<T: W>(r1: usize, c1: usize, shapes_b: &[(usize, usize)], seed: u64) {
                 let want = M::new(r1, c1 + c2, |i, j| if j < c1 { a.at(i, j) } else { b.at(i, j - c1) });
                 expect_m::<T>(&Cx { op: "dense.h_stack", class: &pair, what: &what }, got, &want, None);
                 mc::count("stack_compatible");
+                if long(r1.max(c1 + c2)) {
+                    mc::count("long_stack");
+                }
             } else {
                 expect_panic(&Cx { op: "dense.h_stack", class: "incompatible-accepted", what: &what }, got, show_m);
             }
@@ -171,6 +190,9 @@ pub fn run<T: W>(r1: usize, c1: usize, shapes_b: &[(usize, usize)], seed: u64) {
                 let want = M::new(r1 + r2, c1, |i, j| if i < r1 { a.at(i, j) } else { b.at(i - r1, j) });
                 expect_m::<T>(&Cx { op: "dense.v_stack", class: &pair, what: &what }, got, &want, None);
                 mc::count("stack_compatible");
+                if long(c1.max(r1 + r2)) {
+                    mc::count("long_stack");
+                }
             } else {
                 expect_panic(&Cx { op: "dense.v_stack", class: "incompatible-accepted", what: &what }, got, show_m);
             }
